@@ -4,6 +4,7 @@ One output line per input line.
 
   #case <n> ...            reset; echoes the line
   prog <term>              program term in prefix notation (see `parseTerm`) -> `ok <kind>` | bad-op
+                           (`tick <out>` / `tcyc <next> <out>` = tick-level programs of C30)
   tick <b0>|<b1>           one tick: batch for input 0 and input 1 (`-` = empty, items `,`-separated ints)
                            -> the canonicalised output batch of this tick
   final                    -> the canonicalised accumulated / final output
@@ -49,9 +50,9 @@ def step (st : St) (line : String) : St × String :=
   | "prog" :: rest =>
     match parseProg rest with
     | some p =>
-      match p.kind with
-      | some k => ({ prog := some (p, k), hist := [] }, "ok " ++ reprKind k)
-      | none => ({}, "bad-op")
+      match p.kind, p.kindName with
+      | some k, some nm => ({ prog := some (p, k), hist := [] }, "ok " ++ nm)
+      | _, _ => ({}, "bad-op")
     | none => ({}, "bad-op")
   | ["tick", bs] =>
     match st.prog, (bs.splitOn "|").mapM parseBatch with
